@@ -26,6 +26,16 @@ class DummyQueue:
     # id of an in-flight message -> the consumer that took it
     taken_by: dict[str, object] = field(default_factory=dict)
 
+    def put_back(self, msg: Message) -> None:
+        """Returns an in-flight message to the category it was taken from."""
+        category = getattr(self.taken_by.pop(msg.key.id_, None), "category", "NORMAL")
+        if category == "DEAD":
+            self.dead.append(msg)
+        elif category == "DELAYED" and (delay := wait_until(msg.parameters)) is not None:
+            self.delayed.setdefault(delay, []).append(msg)
+        else:
+            self.simple.put_nowait(msg)
+
 
 def wait_until(params: ParametersT | None = None) -> datetime | None:
     if params is None or params.delay is None:
